@@ -60,6 +60,7 @@ def write(pid, tier, seed, mod, items, results, wall, n_viol, n_known, n_inconcl
     )
     ev = dict(property_id=pid, tier=tier, seed=seed, level="model_checking", coverage=cov,
               assumptions=info.get("assumptions", []), wall_s=round(wall, 2), violations=n_viol)
-    os.makedirs(os.path.join(HERE, "evidence"), exist_ok=True)
-    with open(os.path.join(HERE, "evidence", "%s.json" % pid), "w") as f:
+    edir = os.environ.get("VF_EVIDENCE_DIR") or os.path.join(HERE, "evidence")
+    os.makedirs(edir, exist_ok=True)
+    with open(os.path.join(edir, "%s.json" % pid), "w") as f:
         json.dump(ev, f, indent=1, default=str)
